@@ -75,6 +75,13 @@ def flat_index_ok(idx, rows_pred):
 def run(ctx: Ctx):
     cls = ctx.repo.get_class(DEC, "BeamSearch")
     ctor_forwards(ctx, cls)
+    # beam search re-indexes the rows of the state by beam parent at every step: whatever the policy modules keep on themselves
+    # across calls is NOT re-indexed, so the scores of a beam would come from another beam's history (shared with C14.h)
+    from . import C14 as _C14
+    _n0 = len(ctx.obligations)
+    _C14.stateless_forward(ctx)
+    for _o in ctx.obligations[_n0:]:
+        _o.rule = "C13.g"
     # ---------------- _make_beam_step
     fi, it, fr = analyse(ctx, cls, "_make_beam_step")
     # the intermediate values are recovered from the outputs (returned pair, beam_path.append, parent_beam_logprobs), not by local names
